@@ -158,7 +158,9 @@ def vcf(rng, uid=None, fn=None):
         L.append("NOTE:" + rng.choice(["first paragraph\u2028second paragraph", "nel\u0085inside", "emoji \U0001F600 \U0001F468", "para\u2029sep", "cjk-ext \U00020000"]))
     L.append("END:VCARD")
     nl = "\n" if rng.random() < 0.2 else "\r\n"
-    return (nl.join(_fold(x).replace("\r\n", nl) for x in L) + nl).encode("utf-8")
+    # (a card need not end with a line terminator: vCards are served byte for byte as uploaded)
+    end = "" if rng.random() < 0.08 else nl
+    return (nl.join(_fold(x).replace("\r\n", nl) for x in L) + end).encode("utf-8")
 
 
 def opaque(rng):
